@@ -1,10 +1,17 @@
-// dev-c09: private build of the C09 monitor only.
+// dev-c09: private build of the C09 monitor only (plus single-monitor subsets).
 package main
 
 import (
-	"helm.sh/helm/v4/verifh/core"
+	"strings"
 
-	_ "helm.sh/helm/v4/verifh/props/c09"
+	"helm.sh/helm/v4/verifh/core"
+	"helm.sh/helm/v4/verifh/props/c09"
 )
 
-func main() { core.Main() }
+func main() {
+	c09.DevSubset("C09RACE", func(k, _ string) bool { return strings.HasPrefix(k, "race") })
+	c09.DevSubset("C09RACEMEM", func(k, d string) bool { return k == "race-ops" && d == "memory" })
+	c09.DevSubset("C09LIN", func(k, _ string) bool { return k == "lin" })
+	c09.DevSubset("C09SCHED", func(k, _ string) bool { return k == "dfs" || k == "rand" })
+	core.Main()
+}
